@@ -129,7 +129,7 @@ def run(ctx):
                 CMP("gt", x, xl): sp.Integer(0) if er else T.NAN_T,
                 CMP("eq", x, xl): sp.Integer(0),
             }
-            got = {m: v for m, v in chain}
+            got = {m: T.distribute_item(v) for m, v in chain}     # (dx / dxp)[mask] == dx[mask] / dxp[mask]
             okk = set(got) == set(want)
             bad_masks = [m for m in want if m not in got or T.equivalent(got[m], want[m]) != T.Verdict.EQUAL]
             ctx.expect(okk and not bad_masks, "R13.2", tag + "[fraction]",
@@ -166,7 +166,9 @@ def run(ctx):
                    "bracketing and weights are computed for the same grid, targets and period", nd_int.loc())
 
     # ---- R13.3 corner sum (locals are identified by what they are, not by their names)
-    di = p.get_method(ND, "_data_interpolator")
+    from .fc import inline_value_calls
+    di = inline_value_calls(p, p.get_method(ND, "_data_interpolator"),
+                            keep=("output_indexing_full", "output_indexing_broadcast", "get_data", "output_shape", "_next_point"))       # helpers that hand back the accumulators are seen through
     it = Interp(p)
     rets = [n for n in ast.walk(di.node) if isinstance(n, ast.Return)]
     roles = _interpolator_roles(di)
@@ -185,7 +187,8 @@ def run(ctx):
         me = Obj(p.get_class(ND), {}, "nd")
         me.fields["output_passive_coord_dim_indices"] = P("axes")
         env2.vars.update({roles["val"]: P("val"), roles["w"]: P("w"), "self": me})
-        v = T.to_term(it.eval(masks[0].value, env2))
+        from .fc import substitute_defs as _sd0
+        v = T.to_term(it.eval(_sd0(di.node, masks[0].value, {roles["val"], roles["w"], "self"}), env2))
         want = AND(op("all", T.NOT(op("isnull", P("val"))), P("axes")), CMP("gt", P("w"), 0))
         ctx.equiv("R13.3", "_data_interpolator[corner mask]", v, want, di.loc(masks[0]),
                   "a corner contributes only if its data are not NaN and its weight is positive", interp=it)
@@ -241,7 +244,7 @@ def run(ctx):
                    derived=str({str([T.show(x, 40) for x in k]): T.show(v, 80) for k, v in list(got.items())[:4]}))
         ctx.absorb(itc)
     gd = [c for c in calls(di.node) if ast.unparse(c.func) == "self.get_data"]
-    okg = len(gd) == 1 and [ast.unparse(a) for a in gd[0].args] == [roles.get("idx"), "self.interp_coord_dim_indices"]
+    okg = len(gd) == 1 and [ast.unparse(_sd(di.node, a, stop_)) for a in gd[0].args] == [roles.get("idx"), "self.interp_coord_dim_indices"]
     lp = [n for n in ast.walk(di.node) if isinstance(n, ast.For) and "_next_point" in ast.unparse(n.iter)]
     prm = di.params
     okg = okg and len(lp) == 1 and len(prm) >= 4 and ast.unparse(lp[0].iter).replace("\n", "").replace(" ", "") == \
@@ -426,11 +429,21 @@ def _interpolator_roles(di):
     stop = {roles.get("idx", "?"), roles.get("w", "?"), "self"}
     augs = [n for n in ast.walk(di.node) if isinstance(n, ast.AugAssign) and isinstance(n.op, ast.Add) and isinstance(n.target, ast.Subscript)
             and isinstance(n.target.value, ast.Name)]
+    from .fc import local_assignments
+    la = local_assignments(di.node)
+
+    def through_name(e):
+        # a local bound once to a subscript expression stands for that expression
+        if isinstance(e, ast.Name):
+            defs = la.get(e.id, [])
+            if len(defs) == 1 and defs[0][0] == "assign" and isinstance(defs[0][1], ast.Subscript):
+                return defs[0][1]
+        return e
     for a_ in augs:
-        v = a_.value
+        v = through_name(a_.value)
         if isinstance(v, ast.BinOp) and isinstance(v.op, ast.Mult) and "aug_v" not in roles:
             roles["aug_v"], roles["acc"] = a_, a_.target.value.id
-            for side in (v.left, v.right):
+            for side in (through_name(v.left), through_name(v.right)):
                 if isinstance(side, ast.Subscript) and isinstance(side.value, ast.Name) and side.value.id != roles.get("w"):
                     roles["val"] = side.value.id
         elif isinstance(v, ast.Subscript) and "aug_w" not in roles:
